@@ -173,6 +173,19 @@ pub fn to_lib(a: &RAttr) -> Result<StunAttribute, String> {
     })
 }
 
+/// Application-supplied attributes may also be the *decoded* variants of the verifiable attributes (copied from a received
+/// message): they cannot be encoded themselves and must be replaced by the client's own where the client owns the type.
+pub fn to_lib_app(a: &RAttr) -> Result<StunAttribute, String> {
+    match a {
+        RAttr::Fp(FpSpec::Wire(v)) if v.len() == 4 => Ok(Fingerprint::from(<[u8; 4]>::try_from(v.as_slice()).unwrap()).into()),
+        RAttr::Mi(MacSpec::Wire(v)) if v.len() == 20 => Ok(MessageIntegrity::from(<[u8; 20]>::try_from(v.as_slice()).unwrap()).into()),
+        RAttr::MiSha256(MacSpec::Wire(v)) if v.len() == 32 => {
+            Ok(MessageIntegritySha256::from(<[u8; 32]>::try_from(v.as_slice()).unwrap()).into())
+        }
+        _ => to_lib(a),
+    }
+}
+
 pub fn to_lib_msg(m: &RMsg) -> Result<StunMessage, String> {
     let method = MessageMethod::try_from(m.method).map_err(|e| format!("method: {}", e))?;
     let mut b = StunMessageBuilder::new(method, class_of(m.class)).with_transaction_id(TransactionId::from(m.tid));
